@@ -96,8 +96,9 @@ Proof.
     repeat split; try reflexivity; lia.
   - exists 10, None, 100, 100, 100. unfold admission, over. cbn [framed]. rewrite Hc.
     repeat split; try reflexivity; lia.
-  - exists 10, (Some 5), 100, 100, 5. unfold admission, over. cbn [framed]. rewrite Hc.
-    rewrite andb_false_r. repeat split; try reflexivity; lia.
+  - apply orb_false_elim in Hc as [H1 H2].
+    exists 10, (Some 100), 100, 100, 100. unfold admission, over. cbn [framed]. rewrite H1, H2.
+    repeat split; try reflexivity; lia.
 Qed.
 
 (* A request at or below the limit whose sender tells the truth about its length (or, where
@@ -154,24 +155,20 @@ Qed.
 (* ================================================================================ *)
 (* level A, the pinned table                                                         *)
 
-Lemma pinned_covers tr : covers tr (pinned_sites tr) = true <-> In tr [Mock; Tcp; Unix; Websocket].
+Lemma pinned_covers tr : covers tr (pinned_sites tr) = true.
+Proof. destruct tr; reflexivity. Qed.
+
+Lemma original_covers tr : covers tr (original_sites tr) = true <-> In tr [Mock; Tcp; Unix; Websocket; Udp].
 Proof.
   destruct tr; cbn; split; intros H; try reflexivity; try discriminate; auto 10;
     repeat (destruct H as [H|H]; try discriminate); contradiction.
 Qed.
 
-Lemma repaired_covers tr : covers tr (repaired_sites tr) = true.
-Proof. destruct tr; reflexivity. Qed.
-
-Lemma never_processed_pinned tr max decl sent n : In tr [Mock; Tcp; Unix; Websocket] ->
+(* the pinned tree: all seven transports, every limit, size and declaration *)
+Lemma never_processed_pinned tr max decl sent n :
   framed tr decl sent = Some n -> n > max ->
   rejected (admission pinned_sites tr max decl sent) = true.
-Proof. intros Hin. apply never_processed_covered. apply pinned_covers. exact Hin. Qed.
-
-Lemma never_processed_repaired tr max decl sent n :
-  framed tr decl sent = Some n -> n > max ->
-  rejected (admission repaired_sites tr max decl sent) = true.
-Proof. apply never_processed_covered. apply repaired_covers. Qed.
+Proof. apply never_processed_covered. apply pinned_covers. Qed.
 
 (* the statement the property makes, per transport *)
 Definition never_processed_stmt (sites : site_table) (tr : transport) : Prop :=
@@ -196,57 +193,20 @@ Proof.
   destruct (H max decl sent n true Hf Hn) as [Hp _]. rewrite Ha in Hp. discriminate.
 Qed.
 
-(* net/http: a chunked body of 100 bytes against a limit of 10 *)
-Lemma nethttp_refuted : ~ never_processed_stmt pinned_sites NetHttp.
-Proof.
-  intros H. destruct (H 10 None 100 100 true eq_refl ltac:(lia)) as [Hp _]. vm_compute in Hp. discriminate.
-Qed.
-
-Lemma fasthttp_refuted : ~ never_processed_stmt pinned_sites FastHttp.
-Proof.
-  intros H. destruct (H 10 None 100 100 true eq_refl ltac:(lia)) as [Hp _]. vm_compute in Hp. discriminate.
-Qed.
-
-(* udp: a datagram carrying 100 body bytes whose header says 5, against a limit of 10 *)
-Lemma udp_refuted : ~ never_processed_stmt pinned_sites Udp.
-Proof.
-  intros H. destruct (H 10 (Some 5) 100 100 true eq_refl ltac:(lia)) as [Hp _]. vm_compute in Hp. discriminate.
-Qed.
-
-Lemma pinned_witness_runs :
-  serve pinned_sites NetHttp 10 None 100 true = (Process 100, [EvIOPlugin 100; EvInvoke]) /\
-  serve pinned_sites FastHttp 10 None 100 true = (Process 100, [EvIOPlugin 100; EvInvoke]) /\
-  serve pinned_sites Udp 10 (Some 5) 100 false = (Process 5, [EvIOPlugin 5]).
+(* historical witnesses: before 72ffd23 / e18593a a 100-byte chunked POST against a limit of 10 ran *)
+Lemma historical_chunked_bypass :
+  serve original_sites NetHttp 10 None 100 true = (Process 100, [EvIOPlugin 100; EvInvoke]) /\
+  serve original_sites FastHttp 10 None 100 true = (Process 100, [EvIOPlugin 100; EvInvoke]) /\
+  serve pinned_sites NetHttp 10 None 100 true = (Reject413, []) /\
+  serve pinned_sites FastHttp 10 None 100 true = (Reject413, []).
 Proof. repeat split. Qed.
 
-(* under the guard the pinned handlers do refuse, on all seven transports *)
-Lemma never_processed_partial tr max decl sent n :
-  pinned_guard tr decl sent = true -> framed tr decl sent = Some n -> n > max ->
-  rejected (admission pinned_sites tr max decl sent) = true.
-Proof.
-  intros Hg Hf Hn. unfold admission, over.
-  destruct tr; destruct decl as [d|]; cbn [pinned_guard framed content_length pinned_sites has existsb quantity_eqb] in *;
-    crunch.
-Qed.
-
-(* and the guard is exact: outside it some limit is breached *)
-Lemma pinned_guard_exact tr decl sent n :
-  0 <= sent -> pinned_guard tr decl sent = false -> framed tr decl sent = Some n ->
-  exists max m, n > max /\ admission pinned_sites tr max decl sent = Process m.
-Proof.
-  intros Hs Hg Hf.
-  destruct tr; destruct decl as [d|]; cbn [pinned_guard framed] in *; try discriminate.
-  - (* net/http, chunked *) injection Hf as <-. exists (sent - 1), sent. split; [lia|].
-    unfold admission, over. cbn [pinned_sites has existsb quantity_eqb content_length orb andb].
-    zbool; try lia; reflexivity.
-  - injection Hf as <-. exists (sent - 1), sent. split; [lia|].
-    unfold admission, over. cbn [framed pinned_sites has existsb quantity_eqb content_length orb andb].
-    zbool; try lia; reflexivity.
-  - (* udp, header announces less than the datagram carries *) injection Hf as <-.
-    zbool; try discriminate. exists d, d. split; [lia|].
-    unfold admission, over. cbn [pinned_sites has existsb quantity_eqb orb andb].
-    zbool; try lia; reflexivity.
-Qed.
+(* udp after fix 5ee4f50: the datagram that used to get through (100 body bytes, header says 5,
+   limit 10) is dropped as invalid, and one that tells the truth is refused *)
+Lemma udp_former_witness :
+  serve pinned_sites Udp 10 (Some 5) 100 false = (Malformed, []) /\
+  serve pinned_sites Udp 10 (Some 100) 100 true = (RejectInBand, []).
+Proof. repeat split. Qed.
 
 (* ================================================================================ *)
 (* level B: the byte-level receive functions of Model/Frame.v                         *)
@@ -371,7 +331,7 @@ Lemma udp_refines max buf d i (body : list byte) :
   udp_server_verdict max buf (udp_make_header d i ++ body) =
   admission pinned_sites Udp max (Some d) (Z.of_nat (List.length body)).
 Proof.
-  intros Hd Hi Hfit. unfold udp_server_verdict, udp_step.
+  intros Hd Hi Hfit. unfold udp_server_verdict, udp_recv.
   set (hd := udp_make_header d i).
   assert (Hhd : List.length hd = 8%nat) by reflexivity.
   rewrite udp_read_into_fits by (rewrite app_length; lia).
@@ -381,37 +341,45 @@ Proof.
   rewrite F. subst hd. rewrite udp_roundtrip by lia.
   unfold is_reject. cbn [negb]. rewrite !andb_false_r.
   unfold admission, over. cbn [pinned_sites has existsb quantity_eqb orb andb]. rewrite orb_false_r.
-  destruct (d >? max); cbn [snd]; [reflexivity|].
+  replace (Z.of_nat (8 + List.length body) - 8) with (Z.of_nat (List.length body)) by lia.
+  destruct (d =? Z.of_nat (List.length body)); cbn [negb]; [|reflexivity].
+  destruct (d >? max); [reflexivity|].
   rewrite copy_fresh_length, Z2Nat.id by lia. reflexivity.
 Qed.
 
-(* what the UDP handler hands over never exceeds the limit in length -- but the length is the
-   announced one, not the datagram's *)
-Lemma udp_delivered_within_limit max buf d i b :
-  snd (udp_step (Server max) buf d) = DDeliver i b -> (Z.of_nat (List.length b) <= max \/ max < 0).
+(* ANY datagram on ANY buffer it fits in: what the UDP handler hands over is as long as the
+   datagram's payload, and within the limit -- for udp too the limit now applies to the bytes
+   received *)
+Lemma udp_delivered_is_payload_within_limit max buf d i b :
+  (List.length d <= List.length buf)%nat ->
+  udp_recv (Server max) buf d = DDeliver i b ->
+  Z.of_nat (List.length b) = Z.of_nat (List.length d) - 8 /\ Z.of_nat (List.length b) <= max.
 Proof.
-  unfold udp_step. destruct (udp_read_into buf d) as [buf' n].
-  destruct (n <? 8)%nat; cbn [snd]; [discriminate|].
-  destruct (udp_parse_header (firstn 8 buf')) as [[[len idx] ok]|]; cbn [snd]; [|discriminate].
-  destruct (is_reject _); cbn [snd]; [discriminate|].
-  destruct (len >? max) eqn:Em; cbn [snd]; [discriminate|].
+  intros Hfit. unfold udp_recv. rewrite udp_read_into_fits by exact Hfit.
+  destruct (List.length d <? 8)%nat eqn:E8; [discriminate|].
+  apply Nat.ltb_ge in E8.
+  destruct (udp_parse_header _) as [[[len idx] ok]|]; [|discriminate].
+  destruct (is_reject _); [discriminate|].
+  destruct (len =? Z.of_nat (List.length d) - 8) eqn:El; cbn [negb]; [|discriminate].
+  apply Z.eqb_eq in El.
+  destruct (len >? max) eqn:Em; [discriminate|].
   intros H. injection H as _ <-. rewrite copy_fresh_length.
-  rewrite Z.gtb_ltb in Em. apply Z.ltb_ge in Em.
-  lia.
+  rewrite Z.gtb_ltb in Em. apply Z.ltb_ge in Em. lia.
 Qed.
 
-(* byte-level witness: limit 10, one datagram of 8 + 100 bytes announcing 5 *)
+(* byte level: the former witness -- limit 10, one datagram of 8 + 100 bytes announcing 5 *)
 Definition udp_witness_body : list byte := repeat "x"%byte 100.
 Definition udp_witness : list byte := udp_make_header 5 1 ++ udp_witness_body.
 
-Lemma udp_byte_witness :
-  udp_server_verdict 10 (repeat x00 200) udp_witness = Process 5 /\
+Lemma udp_byte_witness_now_refused :
+  udp_recv (Server 10) (repeat x00 200) udp_witness = DBadHeader /\
+  udp_server_verdict 10 (repeat x00 200) udp_witness = Malformed /\
   Z.of_nat (List.length udp_witness) - 8 = 100.
-Proof. vm_compute. split; reflexivity. Qed.
+Proof. vm_compute. repeat split. Qed.
 
 Lemma udp_reject_decodes i : 0 <= i < 32768 -> udp_client (udp_reject_dgram i) = OTooLarge.
 Proof.
-  intros Hi. unfold udp_client, udp_client_recv, udp_reject_dgram, udp_step.
+  intros Hi. unfold udp_client, udp_reject_dgram, udp_recv.
   set (hd := udp_make_header (Z.of_nat (List.length too_large_text)) (Z.lor i 32768)).
   assert (Hhd : List.length hd = 8%nat) by reflexivity.
   rewrite udp_read_into_fits by (rewrite app_length, udp_zero_buffer_length, Hhd, too_large_text_length; unfold UDP_BUFFER; lia).
@@ -420,7 +388,9 @@ Proof.
   assert (F : forall x, firstn 8 (hd ++ x) = hd) by (intros x; rewrite <- Hhd; apply firstn_app_exact).
   assert (K : forall x, skipn 8 (hd ++ x) = x) by (intros x; rewrite <- Hhd; apply skipn_app_exact).
   rewrite F, K. subst hd. rewrite udp_roundtrip_error by (rewrite ?too_large_text_length; lia).
-  unfold is_reject. change (Z.of_nat (List.length too_large_text) =? 0) with false. cbn [andb negb snd].
+  unfold is_reject. change (Z.of_nat (List.length too_large_text) =? 0) with false. cbn [andb negb].
+  replace (Z.of_nat (8 + List.length too_large_text) - 8) with (Z.of_nat (List.length too_large_text)) by lia.
+  rewrite Z.eqb_refl. cbn [negb].
   rewrite Nat2Z.id, copy_fresh_exact. cbn [client_decode]. rewrite bytes_eqb_refl. reflexivity.
 Qed.
 
@@ -431,14 +401,25 @@ Lemma http_refines max decl (wire : list byte) :
   http_server_verdict max decl wire =
   admission pinned_sites NetHttp max decl (Z.of_nat (List.length wire)).
 Proof.
-  intros Hd. unfold http_server_verdict, http_server_recv, http_read_all, admission, over.
+  intros Hd. unfold http_server_verdict, http_read_all, admission, over.
   cbn [pinned_sites has existsb quantity_eqb orb andb].
   destruct decl as [d|]; cbn [content_length http_yield].
-  - destruct (d >? max); [reflexivity|].
-    destruct (d >? 0) eqn:E0; cbn [fst].
-    + rewrite copy_fresh_length, Z2Nat.id by lia. reflexivity.
-    + rewrite Z.gtb_ltb in E0. apply Z.ltb_ge in E0. assert (d = 0) by lia. subst d. reflexivity.
-  - destruct (-1 >? max); [reflexivity|]. change (-1 >? 0) with false. cbn [fst]. reflexivity.
+  - destruct (Z.gtb_spec d max) as [|Hle]; [reflexivity|].
+    destruct (d >? 0) eqn:E0; cbn [andb].
+    + rewrite Z.gtb_ltb in E0. apply Z.ltb_lt in E0.
+      rewrite !firstn_length.
+      destruct (Nat.ltb_spec (Nat.min (Z.to_nat (max + 1)) (Nat.min (Z.to_nat d) (List.length wire))) (Z.to_nat d)) as [Hlt|Hge];
+        destruct (Z.ltb_spec (Z.of_nat (List.length wire)) d) as [Hlt'|Hge']; try lia; try reflexivity.
+      rewrite copy_fresh_length, Z2Nat.id by lia.
+      destruct (Z.gtb_spec d max); [lia|reflexivity].
+    + rewrite Z.gtb_ltb in E0. apply Z.ltb_ge in E0. assert (d = 0) by lia. subst d.
+      cbn [Z.to_nat firstn]. rewrite firstn_nil. cbn [List.length Z.of_nat].
+      destruct (Z.gtb_spec 0 max); [lia|reflexivity].
+  - destruct (Z.gtb_spec (-1) max) as [|Hle]; [reflexivity|]. change (-1 >? 0) with false. cbn [andb].
+    rewrite firstn_length.
+    destruct (Z.gtb_spec (Z.of_nat (Nat.min (Z.to_nat (max + 1)) (List.length wire))) max);
+      destruct (Z.gtb_spec (Z.of_nat (List.length wire)) max); try lia; try reflexivity.
+    f_equal. lia.
 Qed.
 
 (* ---- non-vacuity helpers ---- *)
@@ -456,15 +437,6 @@ Proof.
   split; [apply rejected_log_empty; exact R|apply caller_sees_too_large; exact R].
 Qed.
 
-Lemma oversize_end_to_end_partial tr max decl sent n valid :
-  pinned_guard tr decl sent = true -> framed tr decl sent = Some n -> n > max ->
-  snd (serve pinned_sites tr max decl sent valid) = [] /\
-  client_decode (reply_of (admission pinned_sites tr max decl sent)) = OTooLarge.
-Proof.
-  intros Hg Hf Hn. pose proof (never_processed_partial tr max decl sent n Hg Hf Hn) as R.
-  split; [apply rejected_log_empty; exact R|apply caller_sees_too_large; exact R].
-Qed.
-
 (* the socket server, byte level: a header announcing more than the limit is answered with the
    error frame before a single body byte is read, whatever follows it *)
 Lemma sock_oversize_bytes max d i rest :
@@ -478,17 +450,6 @@ Proof.
   rewrite sock_roundtrip by lia.
   unfold is_reject. cbn [negb]. rewrite !andb_false_r.
   destruct (Z.gtb_spec d max); [reflexivity|lia].
-Qed.
-
-(* guard of the partial theorem is met by everything the library's own clients send *)
-Lemma truthful_in_guard tr decl sent :
-  truthful tr decl sent = true -> decl <> None \/ ~ In tr [NetHttp; FastHttp] ->
-  pinned_guard tr decl sent = true.
-Proof.
-  intros Ht Hd. destruct tr; destruct decl as [d|]; cbn [truthful pinned_guard] in *; try reflexivity;
-    try discriminate;
-    try (destruct Hd as [Hd|Hd]; [contradiction|exfalso; apply Hd; cbn; auto]).
-  apply Z.eqb_eq in Ht. subst. apply Z.leb_refl.
 Qed.
 
 (* ---- the caller's error under the teardown race (tcp / unix) ---- *)
